@@ -420,6 +420,10 @@ func (w *vWallet) GetFlatOpeningTXFee() (uint64, error) {
 	f := zzverif.U64("flatfee")
 	if w.w.maxFlatFee != 0 {
 		zzverif.Assume(f < w.w.maxFlatFee) // stated bound of the entry on the wallet's estimate
+	} else {
+		// bound of every entry: the estimate is below 2^60 sat.  Above 2^64/3 the code's uint64(float64(fee)*3)
+		// converts an out-of-range float, whose result Go leaves to the platform: model and native run differ.
+		zzverif.Assume(f < 1<<60)
 	}
 	w.w.lastFlatFee = f
 	return f, nil
